@@ -205,9 +205,11 @@ class SyncedDict(SyncedCollection, MutableMapping):
                 with self._load_and_save:
                     self._update(data, _validate=True)
                 return
-            self._update(data)
-            with self._thread_lock:
-                self._save()
+            # The root is replaced wholesale: no load is needed, but the
+            # merge and the save must happen under the locks.
+            self._validate(data)
+            with self._lock_and_save:
+                self._update(data, _validate=True)
         else:
             raise ValueError(
                 "Unsupported type: {}. The data must be a mapping or None.".format(
@@ -249,9 +251,8 @@ class SyncedDict(SyncedCollection, MutableMapping):
             with self._load_and_save:
                 self._data.clear()
             return
-        self._data = {}
-        with self._thread_lock:
-            self._save()
+        with self._lock_and_save:
+            self._data = {}
 
     def update(self, other=None, **kwargs):  # noqa: D102
         if other is not None:
